@@ -14,3 +14,11 @@ chk('C09', 'proof',
     'Clocked leaves (Reg.clock, SynchronousMemory.clock, Sequence.clock, AutoReset.clock, Latch/AsynchronousMemory propagate) are proved from source against the state-machine rule of the statement (parametric widths where possible); each sequential library block is proved, per configuration, to refine its reference state machine by init/step/output obligations over all states and inputs, i.e. for input sequences of any length.',
     'Bounded in configuration only (widths, depths, delays, moduli listed in evidence). Induction over edges is the meta-step. DualPortSynchronousMemory is a listed known finding.',
     'contract-based deductive verification: leaf VCs from the AST + one-step refinement over composed leaf contracts, z3', 'DESIGN.md section 4 / C09')
+chk('C14', 'proof',
+    'Fixed-point add/sub/sign/mult/comparator blocks are built by their real constructors and proved, per format of the grid and for all operand encodings, to equal exact scaled-integer arithmetic (sum/difference mod 2**w, signed product floor-shifted by af+bf-rf, sign bit, signed order under the representable-difference hypothesis) from the composition of leaf contracts; signExtend (helper) is proved parametrically from source.',
+    'Bounded in the format grid only. The FixedPoint helper class methods (object-allocating) are covered in C12.',
+    'contract-based deductive verification: modular composition of proved leaf contracts, z3 BV', 'DESIGN.md section 4 / C14')
+chk('C16', 'proof',
+    'Axi2Reg and Reg2Axi (real constructors, real clock domains) are proved to refine the reference machines written from the statement: init, one-step and output obligations over all states and all inputs, so every schedule of start/reset/done/load pulses and handshake timing is covered by induction; the history clauses of the statement are discharged as consequences of the reference machine.',
+    'Bounded in (register width, stream width) grid only. The schedule assumption of the statement (done only after a completed transfer) is not needed by any obligation. FSM leaves of the Vitis wrapper are not part of the statement.',
+    'contract-based deductive verification: one-step refinement over composed leaf contracts (Reg.clock + gates), z3 BV', 'DESIGN.md section 4 / C16')
